@@ -217,6 +217,11 @@ TOL = 0.006
 
 
 def c04_conservation(tr, out, snaps_by_market, tags):
+    # a replacement only moves size: the new order asks for exactly what the replace took out of the old order's remainder
+    for rp in getattr(tr, "replacements", ()):
+        out.rule("replace-moves-size")
+        if abs(rp["size"] - rp["moved"]) > TOL:
+            out.v("replacement-size-differs-from-size-moved", {"direction": "more" if rp["size"] > rp["moved"] else "less"}, replacement=rp)
     requested = {}
     for r in tr.requests:
         if r["kind"] == "PLACE" and r["o"] not in requested and r["before"] is not None:
